@@ -128,7 +128,12 @@ def _random_scenarios(seed, n, path, max_rounds):
                  ws=rnd.choice(["canon", "none", "wide", "tab"]), xh=rnd.choice(["none", "extra", "clen", "noconn"]),
                  long=rnd.choice([0, 0, 0, 1]), cuts=[], piggy=rnd.choice(["none", "whole", "partial", "two", "big"]),
                  closept=rnd.choice(["none"] * 8 + ["prereq", "noresp", "midresp", "afterresp"]),
-                 tail=rnd.choice(["none"] * 4 + ["ping", "close"]), xreq=rnd.choice([0, 0, 1, 2, 3]))
+                 tail=rnd.choice(["none"] * 4 + ["ping", "close"]), xreq=rnd.choice([0, 0, 1, 2, 3]),
+                 sl=rnd.choice(["canon", "canon", "noreason", "custom"]))
+        if not first and rnd.random() < 0.1:
+            p["acc"] = "stale"
+        if rnd.random() < 0.05:
+            p["closept"], p["piggy"] = "midframe", "partial"
         if rnd.random() < 0.04:
             p["kind"] = "badurl"
         if p["closept"] in ("midresp", "afterresp"):
@@ -229,7 +234,7 @@ def run(ck):
 
     # 4. seeded sample of the full parameter product (split points anywhere)
     rnd = os.path.join(ck.work, "random.jsonl")
-    _random_scenarios(ck.seed, 20000 if thorough else 1500, rnd, rounds)
+    _random_scenarios(ck.seed, 60000 if thorough else 1500, rnd, rounds)
     _validate(ck, sw, "random", rnd, "seeded sample, seed %d" % ck.seed)
     ck.cov["exhaustive"] = True
     ck.assumptions += [
